@@ -146,6 +146,38 @@ def _split(path, nchunks, outdir, tag):
     return out
 
 
+# --------------------------------------------------------------------------- Apalache (additional obligation, thorough tier)
+
+APALACHE = "/opt/veriftools/apalache/bin/apalache-mc"
+
+
+def _apalache(name, d, timeout=900):
+    """The identities over ALL patterns of a real format, symbolically, on the integer formulation
+    spec/XFloatApa<name>.tla (generated; tied to the bit-level model by XFloatApaAgree under TLC).
+    Returns a dict for the evidence; only a counterexample is a result, a timeout is just recorded."""
+    import c19_apalache
+    fmt = {"SF": (8, 23, 15, 32), "DF": (11, 52, 15, 64), "Small": (4, 5, 6, 8)}[name]
+    text = c19_apalache.emit(name, *fmt)
+    path = os.path.join(vlib.SPEC, "XFloatApa%s.tla" % name)
+    if open(path).read() != text:
+        raise vlib.MachineryError("%s is stale: regenerate with gen/c19_apalache.py" % path)
+    wd = os.path.join(d, "apa-" + name)
+    os.makedirs(wd)
+    with open(os.path.join(wd, "XFloatApa%s.tla" % name), "w") as fh:
+        fh.write(text)
+    if not os.path.exists(APALACHE):
+        return {"module": "XFloatApa" + name, "outcome": "apalache not installed"}
+    import time
+    t0 = time.time()
+    rc, so, se, to = vlib.run([APALACHE, "check", "--length=0", "--inv=Inv", "--out-dir=" + os.path.join(wd, "out"),
+                               "XFloatApa%s.tla" % name], cwd=wd, timeout=timeout)
+    out = (so + se).decode(errors="replace")
+    m = re.search(r"The outcome is: (\w+)", out)
+    res = {"module": "XFloatApa" + name, "wall_s": round(time.time() - t0, 1),
+           "outcome": "timeout after %ds" % timeout if to else (m.group(1) if m else "failed: " + out[-300:])}
+    return res
+
+
 # --------------------------------------------------------------------------- harness
 
 def _harness(h, args, out, timeout=3000):
@@ -287,6 +319,11 @@ def run(chk, tier):
             pool.submit(_harness, h, ["rand", chk.seed, nrand, nrand], os.path.join(d, "rand.ndjson")),
             pool.submit(_harness, h, ["xenum", "mini" if quick else "boundary"], os.path.join(d, "xenum.ndjson"))]
     lsub = literal_submit(chk, b, d, tier, pool)
+    afut = []
+    if not quick:
+        mfut.append(("XFloatApaAgree", pool.submit(vlib.tlc, "XFloatApaAgree", "XFloatApaAgree", workers=2, timeout=900,
+                                                   xmx="3g", xss="256m")))
+        afut = [pool.submit(_apalache, n, d) for n in ("SF", "DF")]
     if not quick:
         # thorough: all 2^32 singles and 2^29 random doubles, compared in C with the identity TLC established
         for k in range(16):
@@ -339,6 +376,13 @@ def run(chk, tier):
             dead = [a for a in MODEL_ACTIONS if r.coverage.get(a, (0, 0))[0] == 0]
             if dead:
                 raise vlib.MachineryError("XFloat actions never taken in %s: %s" % (m, dead))
+
+    for f in afut:
+        a = f.result()
+        chk.extra.setdefault("apalache", []).append(a)
+        if a["outcome"] == "Error":
+            chk.violation("Apalache found a counterexample to the identities in %s" % a["module"], a,
+                          key={"model": a["module"], "inv": "Inv"})
 
     # every pattern of the model's enumeration met the implementation
     cards = totals["cards"]
